@@ -63,6 +63,8 @@ class Chunk:
                 self.data = [int(x) for x in chunk_data[6:]]
             elif self.data_type == Attribute.Type.Bool:
                 self.data = [bool(int(x)) for x in chunk_data[6:]]
+            elif self.data_type == Attribute.Type.Complex:
+                self.data = [complex(x) for x in chunk_data[6:]]
             else:
                 # Attribute type cannot be exported
                 self.data = chunk_data[6:]
